@@ -229,12 +229,12 @@ func checkEnc(scen string, in EncIn) []*mc.Violation {
 }
 
 func lineValues(maxLines int) []string {
-	lines := []string{"a", "", " ind", "b c", "\ttab", "#c", "k: v"}
-	sym := []string{"0", "1", "2", "3", "4", "5", "6"}
+	lines := []string{"a", "", " ind", "b c", "\ttab", "#c", "k: v", "5% %s", "J\xf6rg"}
+	sym := []string{"0", "1", "2", "3", "4", "5", "6", "7", "8"}
 	for i, t := range gen.AuditStrings(gen.OneLine, 2) { // alphabet audit: lines made of literals a change introduced
 		if strings.TrimSpace(t) != "" && strings.TrimRight(t, " \t") == t && t != "." {
 			lines = append(lines, t)
-			sym = append(sym, string(rune('7'+i)))
+			sym = append(sym, string(rune('a'+i)))
 		}
 	}
 	var out []string
@@ -245,7 +245,11 @@ func lineValues(maxLines int) []string {
 		}
 		var ls []string
 		for _, c := range s {
-			ls = append(ls, lines[c-'0'])
+			if c >= 'a' {
+				ls = append(ls, lines[9+int(c-'a')])
+			} else {
+				ls = append(ls, lines[c-'0'])
+			}
 		}
 		v := strings.Join(ls, "\n")
 		out = append(out, v, v+"\n")
